@@ -35,6 +35,18 @@ def topo(ck, which):
     ck.trace("strata", "Trace_Grid", "Trace.cfg", flt, nchunks=16,
              what="pentagon disks, icosahedron-edge cells, random cells r=3..15; non-neighbour / cross-resolution pairs; "
                   "candidate words with every reserved value, wrong modes, mutations")
+    t3 = os.path.join(ck.tdir, "threads.ndjson")
+    d = vlib.run_driver(drv, ["threads", ck.tier, ck.seed, t3])
+    if d["rc"] != 0:
+        raise vlib.InfraError("driver failed rc=%s %s" % (d["rc"], d["err"][-1500:]))
+    flt = t3 + "." + which
+    with open(flt, "w") as f:
+        for ln in open(t3):
+            if any('"e":"%s"' % k in ln for k in keep):
+                f.write(ln)
+    ck.trace("concurrent", "Trace_Grid", "Trace.cfg", flt, nchunks=16,
+             what="the same observations made by 8 threads at the same time on cells spread over the globe (pentagons, icosahedron "
+                  "edges, random, every resolution)")
     ck.ev.assumptions += ["TLC 1.8 / JVM", "H3Grid.tla transcription + frozen tables", "ndjson encodings"]
 
 
